@@ -249,7 +249,7 @@ Definition opt_get (t : ini) (s o : str) : pyval :=
 Definition fresh_paths : obj := map (fun f => (f, PNone)) TI_PATH_FIELDS.
 
 (* Variant.deserialize + deserialize_1_0 + paths; [addon] = reached through a parent's addons list *)
-Fixpoint deser_tvar (fuel : nat) (t : ini) (parent_uid : option pyval) (uid : str) (addon : bool) : result tvar :=
+Fixpoint deser_tvar (fuel : nat) (src03 : bool) (t : ini) (parent_uid : option pyval) (uid : str) (addon : bool) : result tvar :=
   match fuel with
   | O => Err OtherError
   | S fuel' =>
@@ -268,14 +268,20 @@ Fixpoint deser_tvar (fuel : nat) (t : ini) (parent_uid : option pyval) (uid : st
            do al <- ini_get t sec' (F"addons");
            fold_left (fun acc cu =>
              do cs <- acc;
-             do c <- deser_tvar fuel' t (Some (PStr uid')) cu true;
+             do c <- deser_tvar fuel' src03 t (Some (PStr uid')) cu true;
              (* self.add(variant): validate under this parent, key by id *)
              check tvalidate (F"treeinfo.Variant") (tv_ctx (Some (PStr uid')) c);
              do ckey <- match getf (tv_fields c) (F"id") with PStr s => Ok s | _ => Err TypeError end;
              match assoc ckey cs with Some _ => Err ValueError | None => Ok (cs ++ [(ckey, c)]) end)
              (split_nonempty al) (Ok [])
          else Ok []);
-      let paths := map (fun field => (field, opt_get t sec' field)) TI_PATH_FIELDS in
+      let paths0 := map (fun field => (field, opt_get t sec' field)) TI_PATH_FIELDS in
+      (* a source tree of format <= 0.3 names its source packages / repository plainly *)
+      let paths := if src03 then
+                     setf (setf (setf (setf paths0 (F"source_packages") (getf paths0 (F"packages")))
+                                      (F"source_repository") (getf paths0 (F"repository")))
+                                (F"packages") PNone) (F"repository") PNone
+                   else paths0 in
       check tvalidate (F"treeinfo.VariantPaths") [];
       Ok (TV f paths children)
   end.
@@ -301,12 +307,14 @@ Definition deser_ti (t : ini) : result ti :=
               check (if vt_leb (1, 1) vt then do ty <- ini_get t (F"header") (F"type"); guard (str_eqb ty ti_mtype) ValueError else Ok tt);
               Ok vt
             else Ok (0, 0)%N);
-  check guard (vt_leb (1, 0) vt) OtherError;      (* older formats: not modelled here *)
-  (* release *)
-  do rname <- ini_get t (F"release") (F"name");
-  do rver <- ini_get t (F"release") (F"version");
-  do rshort <- (if has_option t (F"release") (F"short") then ini_get t (F"release") (F"short") else Ok rname);
-  do lay <- (if has_option t (F"release") (F"is_layered") then do s <- ini_get t (F"release") (F"is_layered"); ini_getboolean s else Ok false);
+  check guard (negb (vt_eqb vt (0, 0))) OtherError;      (* pre-productmd trees: not modelled here *)
+  (* release: [product] up to format 0.3 *)
+  let rsec := if vt_leb vt (0, 3) then F"product" else F"release" in
+  do rname <- ini_get t rsec (F"name");
+  do rver <- ini_get t rsec (F"version");
+  do rshort <- (if vt_leb vt (0, 3) then ini_get t rsec (F"short")
+                else if has_option t rsec (F"short") then ini_get t rsec (F"short") else Ok rname);
+  do lay <- (if has_option t rsec (F"is_layered") then do s <- ini_get t rsec (F"is_layered"); ini_getboolean s else Ok false);
   let rel := [(F"name", PStr rname); (F"short", PStr rshort); (F"version", PStr rver); (F"is_layered", PBool lay)] in
   check tvalidate (F"treeinfo.Release") rel;
   do bp <- (if lay then
@@ -328,7 +336,7 @@ Definition deser_ti (t : ini) : result ti :=
   do variants <-
     fold_left (fun acc vid =>
       do vs <- acc;
-      do v <- deser_tvar (S (length t)) t None vid false;
+      do v <- deser_tvar (S (length t)) (vt_leb vt (0, 3) && str_eqb arch (F"src")) t None vid false;
       check tvalidate (F"treeinfo.Variant") (tv_ctx None v);
       let key := fmt_s (getf (tv_fields v) (F"uid")) in
       match assoc key vs with Some _ => Err ValueError | None => Ok (vs ++ [(key, v)]) end) vids (Ok []);
